@@ -3,7 +3,7 @@
 From Coq Require Import List ZArith NArith Bool Lia.
 From RecordUpdate Require Import RecordSet.
 From PC.Base Require Import Assoc.
-From PC.Sup Require Import Model Monitors Tactics Sim ObsFacts Effects RelCore LemC02 RelC02defs RelC02t RelC02t2 RelC02t3 RelC02b RelC02c RelC02d RelC02d2.
+From PC.Sup Require Import Model Monitors Tactics Sim ObsFacts Effects RelCore LemC02 RelC02defs RelC02t RelC02t2 RelC02t3 RelC02m RelC02b RelC02c RelC02d RelC02d2.
 Import ListNotations RecordSetNotations.
 
 Section F.
@@ -26,18 +26,25 @@ Proof.
       destruct (Hoi i) as (xo & Exo); [congruence|]. eapply endst_ProcEnd; eauto.
     - (* ENoRestart *) cbn in H. unfold step_api in H.
       destruct (Hoi i) as (xo & Exo); [|eapply sreq_NoRestart; eauto].
-      apply (rt_apc _ _ HRt th). break_step H; split_andb; subst; eauto.
+      refine (proj1 (rt_apc _ _ HRt th i _)). break_step H; split_andb; subst; eauto.
     - (* EStopPending *) cbn in H. unfold step_stop in H. destruct (get i (insts s)) as [x|] eqn:Ex; [|discriminate].
       destruct (Hoi i) as (xo & Exo); [congruence|]. eapply sreq_StopPending; eauto.
     - (* EShutdownOrder *) intros i Hm. pose proof Hm as Hi. cbn in H. unfold step_shutdown in H. break_step H.
       apply memN_In in Hi. apply (same_members_in _ _ _ E0) in Hi. apply in_map_iff in Hi. destruct Hi as (p & Ep & Hp).
-      destruct (Hoi i) as (xo & Exo); [rewrite <- Ep; apply (rt_run _ _ HRt _ Hp)|].
-      eapply sreq_ShutdownOrder; eauto. }
+      destruct (Hoi i) as (xo & Exo); [rewrite <- Ep; apply (proj1 (rt_run _ _ HRt _ Hp))|].
+      eapply sreq_ShutdownOrder; eauto.
+    - (* EProbe *) destruct fatal; [|exact I]. cbn in H. unfold step_env in H.
+      destruct (get i (insts s)) as [x|] eqn:Ex; [|discriminate].
+      destruct (rc_inst _ _ _ HRc _ _ Ex) as (xo & Exo & _ & _ & Hl).
+      apply (lo_le _ _ _ Hle). unfold lo. rewrite (oi_get_some _ _ _ Exo), Hl.
+      destruct (launches x); [|lia]. break_step H; discriminate. }
   pose proof (has_step _ _ _ _ H) as Hh.
   pose proof (Rt_obs_le _ _ _ HRt Hle) as HRt'.
   destruct (step_core_kind _ _ _ _ H) as [? ?|i x ? ? ? ? ? ?|H0|H0|H0|i s0 ? H0|i s0 b ? H0|H0|i ? H0|H0|H0]; subst.
   - exact HRt'.
-  - destruct HRt' as [G1 Ga Gb G2 G3 G4 G5 G6]. constructor; auto.
+  - destruct HRt' as [G1 Ga Gb G2 G3 G4 Ge G5 G6].
+    constructor; [intros p Hp; apply Hh, G1, Hp|intros t0 n i0 Hq; apply Hh; eapply Ga; exact Hq
+                 |intros t0 i0 Hq; apply Hh; eapply Gb; exact Hq|exact G2|exact G3|exact G4|exact Ge|exact G5|exact G6].
   - exact (Rt_step_reg _ _ _ _ _ HRt' Hh H0).
   - exact (Rt_step_api _ _ _ _ _ HRt' Hev Hh H0).
   - exact (Rt_step_stop _ _ _ _ _ HRt' Hev Hh H0).
@@ -45,7 +52,7 @@ Proof.
   - exact (Rt_step_procend _ _ _ _ _ _ _ HRt' Hev Hh H0).
   - exact (Rt_step_shutdown _ _ _ _ _ HRt' Hev Hh H0).
   - exact (Rt_step_ordered _ _ _ _ _ HRt' Hh H0).
-  - exact (Rt_step_env _ _ _ _ _ HRt' Hh H0).
+  - exact (Rt_step_env _ _ _ _ _ HRt' Hev Hh H0).
   - exact (Rt_step_own _ _ _ _ _ HRt' Hh H0).
 Qed.
 
@@ -72,7 +79,7 @@ Qed.
 Lemma P2_stopreq s o x xo s' o' xo' (b : bool) :
   P2 s o x xo -> wkeep o o' -> (W2 o' = false -> o_commit xo = false) ->
   okeep (xo <| o_stopreq := true |>) xo' -> (forall n, vis_of s' n = vis_of s n) ->
-  (W4 o' = false -> launched_pc (pc x) = true -> commit_pc (pc x) = false -> b = true) ->
+  (W3 o' = false -> launched_pc (pc x) = true -> commit_pc (pc x) = false -> b = true) ->
   P2 s' o' (x <| f_stopped := if b then true else f_stopped x |>) xo'.
 Proof.
   intros [] (Wa & Wb) Hc (O1 & O2 & O3 & O4 & O5 & O6) Hv Hb. cbn in O1, O2, O3, O4, O5, O6.
@@ -81,7 +88,7 @@ Proof.
   constructor; cbn; unfold Pok, GaveUp in *; cbn; rewrite ?Hv, ?O1, ?O2, ?O3, ?O4, ?O5, ?O6; auto.
   - intros c Hcc. destruct (p_gaveup c Hcc) as (A & _). split; [exact A|now left].
   - intros Hw _ Hp. destruct b; [reflexivity|].
-    destruct (commit_pc (pc x)) eqn:Ec; [specialize (Hnc (W4_W2 _ Hw)); discriminate|].
+    destruct (commit_pc (pc x)) eqn:Ec; [specialize (Hnc (W3_W2 _ Hw)); discriminate|].
     assert (Hl : launched_pc (pc x) = true) by (destruct (pc x); try discriminate; reflexivity).
     specialize (Hb Hw Hl eq_refl). discriminate.
 Qed.
@@ -183,7 +190,7 @@ Proof.
     destruct (spc (get_thread s th)) eqn:Es; try discriminate.
     - destruct (dpc (get_thread s th)) eqn:Ed; try discriminate. destruct rest; try discriminate. split_andb. subst.
       eapply (rt_loop _ _ HRt); [exact Ed|]. rewrite memN_cons, N.eqb_refl. reflexivity.
-    - split_andb. subst. eapply (rt_ready _ _ HRt); eauto. }
+    - split_andb. subst. exact (rt_ready _ _ HRt _ _ _ Es). }
   assert (Hs' : exists t', s' = set_thread th t' s) by (break_step H; subst; eauto).
   destruct Hs' as (t' & ->). clear H.
   eapply P2all_frame; [exact HP|apply sback_eq; reflexivity| |exact Hwk].
@@ -211,7 +218,7 @@ Proof.
   destruct (Hshape j yo' Hyo') as (yo & Eyo & Ok).
   destruct (N.eqb_spec i j) as [<-|Hne].
   - rewrite Ex in Hy'. cbn in Hy'. injection Hy' as <-.
-    destruct (HP _ _ _ Ex Eyo) as [Pcommit Pstop Pexited Palive Pcode Pdecided Prelaunch Pgaveup Prestarts Ppre Pfstopped Prunctx Pendst Pgone Pnostop Pstatus].
+    destruct (HP _ _ _ Ex Eyo) as [Pcommit Pstop Pexited Palive Pcode Pdecided Prelaunch Pgaveup Prestarts Ppre Pfstopped Prunctx Pendst Pgone Pnostop Pstatus Ps1 Pendst2].
     destruct Ok as (Oa & Ob & Oc & Od & Oe & Of). cbn in Oa, Ob, Oc, Od, Oe, Of.
     pose proof (Palive Ha) as Epc. rewrite Epc in *.
     constructor; cbn; rewrite ?Epc, ?Oa, ?Ob, ?Oc, ?Od, ?Oe, ?Of; unfold Pok, GaveUp in *; cbn; autorewrite with sup; auto.
@@ -219,6 +226,7 @@ Proof.
     all: try (intros c0 Hc; repeat destruct Hc as [Hc|Hc]; try discriminate; destruct Hc as [? Hc]; discriminate).
     + intros Hw Hs _. apply Pnostop; auto. apply Hwk, Hw.
     + intros Hw _. apply Pstatus; auto. apply Hwk, Hw.
+    + intros Hw He. apply Pendst2; [apply Hwk, Hw|exact He].
   - eapply P2_frame; [apply (HP _ _ _ Hy' Eyo)|apply ikeep_refl|exact Ok| |exact Hwk].
     apply vrel_vkeep. intros n. autorewrite with sup. split; auto.
 Qed.
@@ -238,16 +246,17 @@ Proof.
     + intros c0 [Hc|[Hc|Hc]]; discriminate.
     + intros c0 [Hc|[b Hc]]; discriminate.
     + split; [lia|intros; lia].
+    + intros s2 c0 [Hc|[b Hc]]; discriminate.
   - destruct (get j (oi o)) as [yo|] eqn:Eyo; [|discriminate]. cbn in Hyo'. injection Hyo' as <-.
     eapply P2_frame; [apply (HP _ _ _ Hy' Eyo)|apply ikeep_refl| |apply vrel_vkeep; intros n0; split; auto|exact Hwk].
     match goal with |- okeep _ (if ?c then _ else _) => destruct c end; unfold okeep; cbn; repeat split; reflexivity.
 Qed.
 
 (* ---- every step ------------------------------------------------------------------------------------------ *)
-Lemma P2all_step_core s o th e s' : Rc cs s o -> Rt s o -> Rd o -> P2all s o -> step_core s th e = Some s' ->
+Lemma P2all_step_core s o th e s' : Rc cs s o -> Rt s o -> Ro o -> Rz s o -> Rs s o -> P2all s o -> step_core s th e = Some s' ->
   P2all s' (obs_step cs o (th, e)).
 Proof.
-  intros HRc HRt HRd HP H. pose proof (wkeep_step cs o (th, e)) as Hwk.
+  intros HRc HRt HRo HRz HRs HP H. pose proof (wkeep_step cs o (th, e)) as Hwk.
   assert (Hfr : oirr e = true -> sback s s' -> P2all s' (obs_step cs o (th, e))).
   { intros Hi Hs. eapply P2all_frame; [exact HP|exact Hs|apply obs_step_keep, Hi|exact Hwk]. }
   destruct (step_core_kind _ _ _ _ H) as [? ?|i x ? ? ? ? ? ?|H0|H0|H0|i s0 ? H0|i s0 b ? H0|H0|i ? H0|H0|H0]; subst.
@@ -277,4 +286,176 @@ Proof.
     + eapply P2all_frame; [eapply P2all_own; eauto|apply sback_refl|apply obs_step_keep, Hi|exact Hwk].
     + eapply P2all_own_obs; eauto.
 Qed.
+
+(* ---- the events that can write o_endst / o_stopreq of instance i ---------------------------------------------- *)
+Definition touches (e : event) (i : iid) : bool :=
+  match e with
+  | EProcEnd j _ | ENoRestart j | EStopPending j | ENewInst j _ => N.eqb j i
+  | EStopEnter j c => N.eqb j i && c
+  | EShutdownOrder l => memN i l
+  | _ => false
+  end.
+
+Definition F2 (o : obs) (i : iid) := (o_endst (oi_get o i), o_stopreq (oi_get o i)).
+Lemma F2_refresh o i : F2 (refresh_succ o) i = F2 o i.
+Proof. unfold F2, oi_get. rewrite refresh_get. destruct (get i (oi o)); cbn; [destruct (_ && _)|]; reflexivity. Qed.
+Lemma F2_on_upd n g o i : F2 (on_upd n g o) i = F2 o i.
+Proof. unfold F2, oi_get. now rewrite on_upd_oi. Qed.
+Lemma F2_oi_upd j f o i : (j = i -> forall x, o_endst (f x) = o_endst x /\ o_stopreq (f x) = o_stopreq x) -> F2 (oi_upd j f o) i = F2 o i.
+Proof.
+  intros Hf. unfold F2, oi_get. rewrite oi_upd_get. destruct (N.eqb_spec j i); [|reflexivity].
+  destruct (get i (oi o)) as [x|]; cbn; [|reflexivity]. destruct (Hf e x) as [-> ->]. reflexivity.
+Qed.
+Lemma F2_fold (f : oinst -> oinst) l o i : memN i l = false -> F2 (fold_left (fun o i => oi_upd i f o) l o) i = F2 o i.
+Proof.
+  revert o. induction l as [|a l IH]; intros o Hm; [reflexivity|]. cbn [fold_left]. rewrite memN_cons in Hm.
+  apply orb_false_iff in Hm. destruct Hm as [Ha Hl]. rewrite IH by exact Hl.
+  apply F2_oi_upd. intros ->. rewrite N.eqb_refl in Ha. discriminate.
+Qed.
+Lemma F2_oi_eq o o' i : oi o = oi o' -> F2 o i = F2 o' i.
+Proof. unfold F2, oi_get. now intros ->. Qed.
+
+Ltac f2_side Ht :=
+  let Hji := fresh in let x := fresh in
+  intros Hji x; try (subst; rewrite N.eqb_refl in Ht; cbn in Ht; try discriminate Ht; subst); cbn;
+  repeat match goal with |- context[if ?c then _ else _] => destruct c; cbn end; rewrite ?orb_false_r; auto.
+
+Lemma obs_untouched o th e i : touches e i = false -> F2 (obs_step cs o (th, e)) i = F2 o i.
+Proof.
+  intros Ht. unfold obs_step. rewrite F2_refresh.
+  destruct e; cbn [fst snd]; cbn in Ht;
+  try (destruct (ev_inst o th _) eqn:Ev);
+  try match goal with |- context[match ?b with true => _ | false => _ end] => destruct b end;
+  unfold note_late_commit;
+  repeat match goal with |- context[if ?b then _ else _] => destruct b end;
+  repeat first [ rewrite F2_on_upd | rewrite F2_oi_upd by f2_side Ht | rewrite F2_fold by exact Ht ];
+  try (apply F2_oi_eq; reflexivity).
+  all: try (unfold F2, oi_get; cbn; rewrite get_set, Ht; reflexivity).
+  all: match goal with |- F2 ?Z ?ii = _ => match Z with context[fold_left ?f ?l ?b] =>
+         transitivity (F2 (fold_left f l b) ii); [apply F2_oi_eq; reflexivity|] end end;
+       rewrite F2_fold by exact Ht; apply F2_oi_eq; reflexivity.
+Qed.
+
+(* ---- Rg: begun / launched instances have left runProcess ------------------------------------------------------- *)
+Lemma stage_none_step s th e s' i : step_core s th e = Some s' -> get i (stage s) = None -> get i (insts s) <> None ->
+  get i (stage s') = None.
+Proof.
+  intros H Hn Hi. destruct (get i (stage s')) as [v|] eqn:Ev; [|reflexivity].
+  destruct (stage_step _ _ _ _ _ _ H Ev) as [A|[[A _]|(n & _ & A & _)]]; congruence.
+Qed.
+
+Lemma has_of_none s i : get i (insts s) <> None -> get i (stage s) = None -> has_inst s i.
+Proof. intros A B. split; [exact A|]. intros t. rewrite B. discriminate. Qed.
+
+Lemma Rg_init ord : Rg (init cs ord).
+Proof. constructor; cbn; intros; discriminate. Qed.
+
+Lemma Rg_step_core s th e s' : Rg s -> step_core s th e = Some s' -> Rg s'.
+Proof.
+  intros [G1 G2] H.
+  assert (Hkeep : forall i, get i (stage s) = None -> get i (insts s) <> None ->
+                  get i (stage s') = None /\ get i (insts s') <> None).
+  { intros i A B. split; [eapply stage_none_step; eauto|]. apply (has_step _ _ _ _ H i (has_of_none _ _ B A)). }
+  constructor.
+  - intros t i Ht. destruct (thinst_step _ _ _ _ _ _ H Ht) as [A|(-> & -> & A)].
+    + destruct (G1 t i A). auto.
+    + cbn in H. break_step H. subst s'. cbn. rewrite get_del, N.eqb_refl. split; [reflexivity|congruence].
+  - intros i x' Hx Hl. destruct (launches_step _ _ _ _ _ _ H Hx Hl) as [(x & Ex & Lx)|A].
+    + apply Hkeep; [eapply G2; eauto|congruence].
+    + destruct (G1 th i A). apply Hkeep; auto.
+Qed.
+
+Lemma Rg_flush th s : Rg s -> Rg (flush th s).
+Proof.
+  intros [G1 G2]. constructor.
+  - intros t i. rewrite flush_thinst, flush_stage. intros Ht. destruct (G1 t i Ht) as [A B]. split; [exact A|].
+    pose proof (flush_insts th s i) as F. destruct (get i (insts s)); [|congruence]. destruct F as (x' & -> & _). discriminate.
+  - intros i x' Hx Hl. rewrite flush_stage. pose proof (flush_insts th s i) as F.
+    destruct (get i (insts s)) as [x|] eqn:Ex; [|congruence]. destruct F as (x2 & E2 & L). assert (x2 = x') by congruence. subst.
+    destruct L as (_ & _ & _ & L4 & _). eapply G2; eauto. lia.
+Qed.
+
+(* ---- Rz: before its creation write an instance has no stop request and no onProcessEnd ------------------------- *)
+Lemma Rz_init ord : Rz (init cs ord) (obs0 cs).
+Proof. intros i t H. discriminate. Qed.
+
+Lemma Rz_flush th s o : Rz s o -> Rz (flush th s) o.
+Proof. intros HR i t. rewrite flush_stage. apply HR. Qed.
+
+Lemma fresh_obs_record o th i n : get i (oi o) = None ->
+  o_endst (oi_get (obs_step cs o (th, ENewInst i n)) i) = None /\ o_stopreq (oi_get (obs_step cs o (th, ENewInst i n)) i) = false.
+Proof. intros Ho. unfold obs_step, oi_get. cbn [ev_inst fst snd]. rewrite refresh_get. cbn. rewrite get_set_same. cbn. auto. Qed.
+
+Lemma Rz_step_core s o th e s' : Rc cs s o -> Rt s o -> Rg s -> Rz s o -> step_core s th e = Some s' ->
+  Rz s' (obs_step cs o (th, e)).
+Proof.
+  intros HRc HRt [G1 G2] HRz H i t Hst.
+  assert (Hnew : forall n, e = ENewInst i n ->
+            o_endst (oi_get (obs_step cs o (th, e)) i) = None /\ o_stopreq (oi_get (obs_step cs o (th, e)) i) = false).
+  { intros n ->. apply fresh_obs_record. cbn in H. unfold step_reg in H. break_step H.
+    apply negb_true_iff in E0. unfold has in E0. destruct (get i (insts s)) eqn:Ei; [discriminate|]. eapply rc_noinst; eauto. }
+  destruct (stage_step _ _ _ _ _ _ H Hst) as [A|[(_ & k & [=])|(n & -> & _)]]; [|eapply Hnew; eauto].
+  destruct (HRz i t A) as [Z1 Z2].
+  assert (Hq : ~ has_inst s i) by (intros [_ Q]; exact (Q t A)).
+  destruct (touches e i) eqn:Ht.
+  2:{ pose proof (obs_untouched o th e i Ht) as E. split; [rewrite <- Z1; exact (f_equal fst E)|rewrite <- Z2; exact (f_equal snd E)]. }
+  destruct e; try discriminate Ht; cbn in Ht; try (apply N.eqb_eq in Ht; rewrite Ht in *; clear Ht); try (eapply Hnew; reflexivity); exfalso; cbn in H.
+  - (* EProcEnd i *) unfold step_procend in H. destruct (get i (insts s)) as [x|] eqn:Ex; [|discriminate]. cbv zeta in H.
+    destruct (spc (get_thread s th)) eqn:Es;
+      try (break_step H; match goal with E : opt_eqb N.eqb (get th (thinst s)) (Some i) = true |- _ =>
+             apply opt_eqb_N_eq in E; destruct (G1 _ _ E); congruence end).
+    break_step H. split_andb. subst. pose proof (rt_spend _ _ HRt _ _ Es) as Hs. unfold sreq in Hs. congruence.
+  - (* ENoRestart i *) unfold step_api in H. apply Hq. apply (rt_apc _ _ HRt th i). break_step H; split_andb; subst; eauto.
+  - (* EStopEnter i true *) apply andb_true_iff in Ht. destruct Ht as [Ht ->]. apply N.eqb_eq in Ht. rewrite Ht in *. clear Ht.
+    unfold step_stop in H. destruct (get i (insts s)) as [x|] eqn:Ex; [|discriminate]. cbv zeta in H. break_step H.
+    destruct (spc (get_thread s th)) eqn:Es; try discriminate.
+    + destruct (dpc (get_thread s th)) eqn:Ed; try discriminate. destruct rest; try discriminate. split_andb. subst.
+      match goal with A0 : get ?ii (stage s) = Some _ |- _ =>
+        assert (Hs : sreq o ii) by (eapply (rt_loop _ _ HRt); [exact Ed|]; rewrite memN_cons, N.eqb_refl; reflexivity);
+        unfold sreq in Hs; congruence end.
+    + split_andb. subst. pose proof (rt_ready _ _ HRt _ _ _ Es) as Hs. cbn in Hs. unfold sreq in Hs. congruence.
+  - (* EStopPending i *) unfold step_stop in H. destruct (get i (insts s)) as [x|] eqn:Ex; [|discriminate].
+    destruct (spc (get_thread s th)) eqn:Es; try discriminate. break_step H. split_andb. subst.
+    pose proof (rt_ent _ _ HRt _ _ _ Es) as Hs. destruct cancel; [unfold sreq in Hs; congruence|].
+    unfold lo in Hs. destruct (rc_inst _ _ _ HRc _ _ Ex) as (xo & Exo & _ & _ & Hl). rewrite (oi_get_some _ _ _ Exo), Hl in Hs.
+    rewrite (G2 _ _ Ex Hs) in A. discriminate.
+  - (* EShutdownOrder *) unfold step_shutdown in H. break_step H. apply Hq.
+    apply memN_In in Ht. apply (same_members_in _ _ _ E0) in Ht. apply in_map_iff in Ht. destruct Ht as (p & <- & Hp).
+    apply (rt_run _ _ HRt _ Hp).
+Qed.
+
+(* ---- Rs: a pending-stop targets an instance that is not in a launched pc -------------------------------------- *)
+Lemma Rs_init ord : Rs (init cs ord) (obs0 cs).
+Proof. intros th i x H. cbn in H. discriminate. Qed.
+
+Lemma Rs_flush th s o : Rs s o -> Rs (flush th s) o.
+Proof.
+  intros HR t i x' Hs HW Hx.
+  assert (Hs0 : spc (get_thread s t) = SPend i).
+  { destruct (flush_get_thread th s t) as [E|[-> E]]; rewrite E in Hs; exact Hs. }
+  pose proof (flush_insts th s i) as F. destruct (get i (insts s)) as [x|] eqn:Ex; [|congruence].
+  destruct F as (x2 & E2 & L). assert (x2 = x') by congruence. subst. destruct L as (_ & _ & L3 & _). rewrite L3. eapply HR; eauto.
+Qed.
+
+Lemma Rs_step_core s o th e s' : Rc cs s o -> Rt s o -> P2all s o -> Rs s o -> step_core s th e = Some s' ->
+  Rs s' (obs_step cs o (th, e)).
+Proof.
+  intros HRc HRt HP HRs H t i x' Hs HW Hx.
+  pose proof (proj2 (wkeep_step cs o (th, e)) HW) as HW0.
+  destruct (launched_pc (pc x')) eqn:Hl; [exfalso|reflexivity].
+  destruct (launched_enter _ _ _ _ _ _ H Hx Hl) as (x & Ex & Hor).
+  destruct (rc_inst _ _ _ HRc _ _ Ex) as (xo & Exo & _).
+  destruct (spend_step _ _ _ _ _ _ H Hs) as [A|(-> & -> & y & Ey & Hst)].
+  - destruct Hor as [Hor|Hor]; [rewrite (HRs _ _ _ A HW0 Ex) in Hor; discriminate|].
+    pose proof (rt_spend _ _ HRt _ _ A) as Hsr. unfold sreq in Hsr. rewrite (oi_get_some _ _ _ Exo) in Hsr.
+    pose proof (p_stop _ _ _ _ (HP _ _ _ Ex Exo) (W3_W2 _ HW0) Hsr) as Hc. rewrite Hor in Hc. discriminate.
+  - assert (y = x) by congruence. subst y.
+    destruct Hor as [Hor|Hor].
+    + exact (p_status _ _ _ _ (HP _ _ _ Ex Exo) HW0 Hor Hst).
+    + (* the step does not move the pc *)
+      destruct (sback_stop s th (EStopPending i) s' H) as [B _]. destruct (B _ _ Hx) as (x2 & E2 & Ik).
+      assert (x2 = x) by congruence. subst. destruct Ik as (_ & _ & Ipc & _). rewrite Ipc, Hor in Hl. discriminate.
+Qed.
+
+
 End F.
